@@ -46,10 +46,13 @@ namespace
     {
       auto ta = va.get_type ();
       auto tb = vb.get_type ();
+      // VA is TOS, i.e. the right-hand operand.  Values of different
+      // types order the same way here as value_seq::cmp orders them
+      // when they are elements of sequences: by type first.
       if (ta < tb)
-	return pred_result (want == cmp_result::less);
-      else if (tb < ta)
 	return pred_result (want == cmp_result::greater);
+      else if (tb < ta)
+	return pred_result (want == cmp_result::less);
     }
 
     cmp_result r = vb.cmp (va);
